@@ -42,7 +42,8 @@ elements), a successful run's image IS the two-pass reference layout of the prog
   `Asm.data_retry` (Lemmas/AsmRetry.lean, property level: Props/C08Asm.lean).
   Hypothesis `plain` (every sub-tree an interrupted evaluation has completed is a leaf, register-free arithmetic or
   `Rn + c`):
-  needed because `evaluate` is not idempotent on its own output (`Simp.resumes_false`); it covers `imm`,
+  was needed as long as `evaluate` was not idempotent on its own output (K4, K5; see Props/C05AsmFull.lean for the
+  statement without it); it covers `imm`,
   `label ± expr`, `[Rn + expr]`, `[expr + Rn]`, `[Rn + sym + 4]`, `[Rn + 4 + sym]`, register lists, every `.du*`
   arithmetic.
   `NoLabelAtTop` is needed for `Ref.layout` (pass 1) only, exactly as in `Layout.ref_defined`.
@@ -126,7 +127,7 @@ theorem layout_refines_asm {num : Bytes → Nat} (hinj : Function.Injective num)
         ∃ img'' env, Layout.Ref.layout (abstract num fs encoder main t₂ none els) = some img'' ∧
           (∀ a, Map.abs o.image a = img''.get a) ∧
           Layout.Ref.pass1 none [] (abstract num fs encoder main t₂ none els) = some env ∧ EnvRel num t₂ env) := by
-  obtain ⟨t₂, img, lst, _, hsteps, henvr, hrun, himg⟩ := run_sim hinj fs main data hfs els perr hparse hsf o h hs
+  obtain ⟨t₂, img, lst, _, hsteps, henvr, hrun, himg⟩ := run_sim hinj fs main data hfs els perr hparse (fun el hel => (hsf el hel).1) o h hs
   have hwf := abstract_wf num fs main t₂ els none
   refine ⟨t₂, hwf, ⟨img, hrun, himg⟩, ?_, fun hl => ?_⟩
   · obtain ⟨img', p1, p2⟩ := Layout.run_is_pass2 _ img hrun hwf
@@ -148,7 +149,7 @@ theorem every_statement_placed_asm {num : Bytes → Nat} (hinj : Function.Inject
     ∃ t₂ : Table, ∀ q r s, abstract num fs encoder main t₂ none els = q ++ s :: r → s.emits = true →
       ∃ c, Layout.Ref.cursorAfter none q = some c ∧
         ∀ i, i < (Layout.Ref.bytes c s).length → Map.abs o.image (c + i) = (Layout.Ref.bytes c s)[i]? := by
-  obtain ⟨t₂, img, lst, _, _, _, hrun, himg⟩ := run_sim hinj fs main data hfs els perr hparse hsf o h hs
+  obtain ⟨t₂, img, lst, _, _, _, hrun, himg⟩ := run_sim hinj fs main data hfs els perr hparse (fun el hel => (hsf el hel).1) o h hs
   refine ⟨t₂, fun q r s hp hs' => ?_⟩
   obtain ⟨c, h1, h2⟩ := Layout.every_statement_placed _ q r s img hrun (abstract_wf num fs main t₂ els none) hp hs'
   exact ⟨c, h1, fun i hi => by rw [himg]; exact h2 i hi⟩
